@@ -49,6 +49,8 @@ pub struct SimPeer {
     pub banned: bool,
     /// the peer does not answer (used for timeouts)
     pub mute: bool,
+    /// fault injection: the session is closing (sends to it fail), see World::start_closing
+    pub closing: bool,
 }
 
 #[derive(Default, Clone, Debug)]
@@ -195,6 +197,7 @@ impl World {
             honest,
             banned: false,
             mute: false,
+            closing: false,
         });
         self.peers.len() - 1
     }
@@ -269,8 +272,27 @@ impl World {
         self.peers[pi].id = id;
         self.peers[pi].connected = true;
         self.peers[pi].inbox.clear();
+        if self.peers[pi].closing {
+            self.peers[pi].closing = false;
+            self.peers[pi].mute = false;
+        }
         let r = self.cm().connected(id);
         self.absorb(r, "connected")
+    }
+
+    /// Fault injection: the session of peer `pi` starts closing - from now on every message the client sends to it fails with an error
+    /// and is lost, the peer sends nothing more; the `disconnected` callback arrives when the caller invokes `disconnect(pi)` (tentacle
+    /// reports the closed session a little later than the failing sends).
+    pub fn start_closing(&mut self, pi: usize) {
+        if !self.peers[pi].connected || self.client.is_none() {
+            return;
+        }
+        let id = self.peers[pi].id;
+        self.c().log.set_failing(id);
+        self.peers[pi].inbox.clear();
+        self.peers[pi].mute = true;
+        self.peers[pi].closing = true;
+        self.log_event(format!("t={} FAULT session of {:?} is closing: sends fail from now on", self.round_no, id));
     }
 
     pub fn disconnect(&mut self, pi: usize) -> Outcome {
